@@ -250,7 +250,10 @@ impl Model {
                 }
             }
             Op::Advance(d) => {
-                self.now = add_dur(self.now, *d).unwrap_or(self.now);
+                let next = add_dur(self.now, *d).unwrap_or(self.now);
+                if next.s <= exec::MAX_CLOCK_SECS {
+                    self.now = next;
+                }
             }
             Op::Rewind(d) => {
                 self.now = self.now.to_std().checked_sub(d.to_std()).map(Dur::from_std).unwrap_or(self.now);
@@ -762,6 +765,8 @@ pub struct Focus {
     pub mirror: bool,
     /// quiesce the consumer before this percentage of puts (so that estimates are current)
     pub consumer_idle_pct: u64,
+    /// fault kind "clock moves backwards": percentage of clock operations that are rewinds
+    pub rewind_pct: u64,
 }
 
 impl Focus {
@@ -783,6 +788,7 @@ impl Focus {
             check_admission: false,
             mirror: false,
             consumer_idle_pct: 0,
+            rewind_pct: 0,
         }
     }
 }
@@ -983,6 +989,10 @@ impl SeqDriver {
                     return Some(crate::gen::gen_read(&mut self.rng, keys));
                 }
                 4 => {
+                    if f.rewind_pct > 0 && self.rng.chance(f.rewind_pct, 100) {
+                        let d = *self.rng.pick(&[Dur { s: 0, n: 1 }, Dur { s: 0, n: 500_000_000 }, Dur { s: 1, n: 0 }, Dur { s: 3, n: 0 }, Dur { s: 3600, n: 0 }]);
+                        return Some(Op::Rewind(d));
+                    }
                     // aim at boundaries of existing expiries half of the time
                     let exps: Vec<Dur> = self.model.keys.values().filter_map(|e| e.expiry).filter(|e| *e >= self.model.now).collect();
                     if !exps.is_empty() && self.rng.chance(1, 2) {
